@@ -93,7 +93,7 @@ package dastard
 // bit drop), otherwise the step window no longer contains the zero step.
 //@ func NewPhaseUnwrapper
 //@   trusted
-//@   requires bits: 2 <= fractionBits && fractionBits <= 16 && lowBitsToDrop + 2 <= fractionBits && (enable ==> lowBitsToDrop > 0 && resetAfter > 0)
+//@   requires bits: 2 <= fractionBits && fractionBits <= 16 && lowBitsToDrop + 2 <= fractionBits && (enable ==> lowBitsToDrop > 0 && resetAfter > 0 && fractionBits - lowBitsToDrop <= 14)
 //@   requires bias: 0 - P2(fractionBits - 1) <= biasLevel && biasLevel <= P2(fractionBits - 1)
 //@   ensures result != nil && fresh(result) && InvU(result) && (result.enable && result.lowBitsToDrop > 0 ==> MaskOK(result)) && result.enable == enable && result.lowBitsToDrop == lowBitsToDrop
 
